@@ -368,6 +368,7 @@ func (in *Interp) installLibStubs() {
 		return nilErr
 	}
 	S["(*"+mp+".Decoder).SetCustomStructTag"] = func(in *Interp, fn *ssa.Function, a []Value) Value { return nil }
+	S["runtime/debug.Stack"] = func(in *Interp, fn *ssa.Function, a []Value) Value { return SliceV{isNil: true} }
 	S["encoding/json.NewEncoder"] = func(in *Interp, fn *ssa.Function, a []Value) Value {
 		return PtrV{loc: &Loc{v: BVu(8, 0)}}
 	}
@@ -815,6 +816,68 @@ func (in *Interp) installReflectStubs() {
 type boltBucket struct {
 	keys [][]*Term
 	vals []Value
+	tx   *boltTx // nil: a free-standing bucket of the harness
+}
+
+// bbolt.DB at transaction level (the documented contract): one read-write transaction at a
+// time, a transaction sees the state committed when it began, Commit installs the writer's
+// state or fails and rolls back, Close waits for every open transaction.
+type boltDB struct {
+	buckets  map[string]*boltBucket
+	openRead int
+	writer   *boltTx
+	closed   bool
+	faults   bool // environment faults (commit, copy) may be injected
+}
+
+type boltTx struct {
+	db       *boltDB
+	writable bool
+	closed   bool
+	work     map[string]*boltBucket
+	handles  map[string]*Loc
+}
+
+func (in *Interp) boltBegin(db *boltDB, writable bool) *boltTx {
+	tx := &boltTx{db: db, writable: writable, work: map[string]*boltBucket{}, handles: map[string]*Loc{}}
+	if writable {
+		if db.writer != nil {
+			in.finding("deadlock", "bbolt: a read-write transaction is begun while another one was never finished (blocks forever)", nil)
+			in.abort("infeasible", "writer deadlock")
+		}
+		db.writer = tx
+		for name, b := range db.buckets {
+			tx.work[name] = &boltBucket{keys: append([][]*Term{}, b.keys...), vals: append([]Value{}, b.vals...), tx: tx}
+		}
+	} else {
+		db.openRead++
+		for name, b := range db.buckets {
+			tx.work[name] = &boltBucket{keys: b.keys, vals: b.vals, tx: tx} // never written through a read transaction
+		}
+	}
+	return tx
+}
+
+func (in *Interp) boltEnd(tx *boltTx, commit bool) {
+	tx.closed = true
+	if tx.writable {
+		tx.db.writer = nil
+		if commit {
+			nb := map[string]*boltBucket{}
+			for name, b := range tx.work {
+				nb[name] = &boltBucket{keys: b.keys, vals: b.vals}
+			}
+			tx.db.buckets = nb
+		}
+	} else {
+		tx.db.openRead--
+	}
+}
+
+func (in *Interp) txVal(tx *boltTx) Value {
+	l := &Loc{v: BVu(8, 0)}
+	in.boltTxs[l] = tx
+	return PtrV{loc: l}
 }
 
 type boltCursor struct {
@@ -830,6 +893,9 @@ func (in *Interp) boltOf(v Value) *boltBucket {
 	b, ok := in.bolts[p.loc]
 	if !ok {
 		in.abort("unsupported", "bbolt.Bucket not created by the harness")
+	}
+	if b.tx != nil && b.tx.closed {
+		in.abort("panic", "bbolt bucket used after its transaction ended")
 	}
 	return b
 }
@@ -885,7 +951,207 @@ func (in *Interp) installBoltStubs() {
 		in.bolts[l] = b
 		return PtrV{loc: l}
 	}
-	S["(*"+bb+".Bucket).Writable"] = func(in *Interp, fn *ssa.Function, a []Value) Value { return Bool(true) }
+	in.intrinsics["vboltdb"] = func(in *Interp, args []Value) Value {
+		l := &Loc{v: BVu(8, 0)}
+		in.boltDBs[l] = &boltDB{buckets: map[string]*boltBucket{}}
+		return PtrV{loc: l}
+	}
+	dbOf := func(in *Interp, v Value) *boltDB {
+		p, ok := v.(PtrV)
+		if !ok || p.loc == nil {
+			in.abort("panic", "nil *bbolt.DB")
+		}
+		db, ok := in.boltDBs[p.loc]
+		if !ok {
+			in.abort("unsupported", "bbolt.DB not created by the harness")
+		}
+		return db
+	}
+	txOf := func(in *Interp, v Value) *boltTx {
+		p, ok := v.(PtrV)
+		if !ok || p.loc == nil {
+			in.abort("panic", "nil *bbolt.Tx")
+		}
+		tx, ok := in.boltTxs[p.loc]
+		if !ok {
+			in.abort("unsupported", "bbolt.Tx not created by the model")
+		}
+		return tx
+	}
+	in.intrinsics["vboltfaults"] = func(in *Interp, args []Value) Value {
+		dbOf(in, args[0]).faults = args[1].(*Term).True()
+		return nil
+	}
+	in.intrinsics["vboltopentx"] = func(in *Interp, args []Value) Value {
+		db := dbOf(in, args[0])
+		n := db.openRead
+		if db.writer != nil {
+			n++
+		}
+		return BVi(64, int64(n))
+	}
+	boltErr := func(in *Interp, name string) Value {
+		p := in.prog.ImportedPackage("go.etcd.io/bbolt/errors")
+		if p != nil && p.Var(name) != nil {
+			return load(in.global(p.Var(name)), errT())
+		}
+		return in.newErrorString("bbolt: " + name)
+	}
+	envFault := func(in *Interp, db *boltDB) bool {
+		return db.faults && in.choose(func() []int { return []int{0, 1} }) == 1
+	}
+	// managed transactions: the closure's panic rolls the transaction back and keeps unwinding
+	managed := func(in *Interp, db *boltDB, writable bool, f FuncV) Value {
+		if db.closed {
+			return boltErr(in, "ErrDatabaseNotOpen")
+		}
+		tx := in.boltBegin(db, writable)
+		var r IfaceV
+		func() {
+			defer func() {
+				if !tx.closed {
+					if x := recover(); x != nil {
+						in.boltEnd(tx, false)
+						panic(x)
+					}
+				}
+			}()
+			r = in.call(f.fn, []Value{in.txVal(tx)}, f.binds).(IfaceV)
+		}()
+		if tx.closed {
+			in.abort("panic", "bbolt: managed transaction was committed or rolled back by the closure")
+		}
+		if r.t != nil || !writable {
+			in.boltEnd(tx, false)
+			return r
+		}
+		if envFault(in, db) {
+			in.boltEnd(tx, false)
+			return in.newErrorString("bbolt: commit failed (environment fault)")
+		}
+		in.boltEnd(tx, true)
+		return IfaceV{}
+	}
+	S["(*"+bb+".DB).View"] = func(in *Interp, fn *ssa.Function, a []Value) Value {
+		return managed(in, dbOf(in, a[0]), false, a[1].(FuncV))
+	}
+	S["(*"+bb+".DB).Update"] = func(in *Interp, fn *ssa.Function, a []Value) Value {
+		return managed(in, dbOf(in, a[0]), true, a[1].(FuncV))
+	}
+	S["(*"+bb+".DB).Begin"] = func(in *Interp, fn *ssa.Function, a []Value) Value {
+		db := dbOf(in, a[0])
+		if db.closed {
+			return TupleV{[]Value{PtrV{}, boltErr(in, "ErrDatabaseNotOpen")}}
+		}
+		return TupleV{[]Value{in.txVal(in.boltBegin(db, a[1].(*Term).True())), IfaceV{}}}
+	}
+	S["(*"+bb+".DB).Close"] = func(in *Interp, fn *ssa.Function, a []Value) Value {
+		db := dbOf(in, a[0])
+		if db.openRead > 0 || db.writer != nil {
+			in.finding("deadlock", "bbolt: Close waits for a transaction that is never finished (blocks forever)", nil)
+			in.abort("infeasible", "close deadlock")
+		}
+		db.closed = true
+		return IfaceV{}
+	}
+	S["(*"+bb+".DB).Path"] = func(in *Interp, fn *ssa.Function, a []Value) Value { return strConst("verif.db") }
+	S["(*"+bb+".Tx).Writable"] = func(in *Interp, fn *ssa.Function, a []Value) Value { return Bool(txOf(in, a[0]).writable) }
+	S["(*"+bb+".Tx).Size"] = func(in *Interp, fn *ssa.Function, a []Value) Value { return BVi(64, 4096) }
+	S["(*"+bb+".Tx).Commit"] = func(in *Interp, fn *ssa.Function, a []Value) Value {
+		tx := txOf(in, a[0])
+		if tx.closed {
+			return boltErr(in, "ErrTxClosed")
+		}
+		if !tx.writable {
+			return boltErr(in, "ErrTxNotWritable")
+		}
+		if envFault(in, tx.db) {
+			in.boltEnd(tx, false) // a failed commit rolls the transaction back
+			return in.newErrorString("bbolt: commit failed (environment fault)")
+		}
+		in.boltEnd(tx, true)
+		return IfaceV{}
+	}
+	S["(*"+bb+".Tx).Rollback"] = func(in *Interp, fn *ssa.Function, a []Value) Value {
+		tx := txOf(in, a[0])
+		if tx.closed {
+			return boltErr(in, "ErrTxClosed")
+		}
+		in.boltEnd(tx, false)
+		return IfaceV{}
+	}
+	S["(*"+bb+".Tx).CopyFile"] = func(in *Interp, fn *ssa.Function, a []Value) Value {
+		tx := txOf(in, a[0])
+		if tx.closed {
+			return boltErr(in, "ErrTxClosed")
+		}
+		if p, ok := a[1].(StrV).concrete(); ok && strings.HasPrefix(p, "/nonexistent") {
+			return in.notExistErr() // the harness's way to make the copy fail natively as well
+		}
+		return IfaceV{}
+	}
+	bucketHandle := func(in *Interp, tx *boltTx, name string) Value {
+		b, ok := tx.work[name]
+		if !ok {
+			return PtrV{}
+		}
+		l, ok := tx.handles[name]
+		if !ok {
+			l = &Loc{v: BVu(8, 0)}
+			tx.handles[name] = l
+			in.bolts[l] = b
+		}
+		return PtrV{loc: l}
+	}
+	nameOf := func(in *Interp, v Value) string {
+		bs := sliceBytes(v.(SliceV))
+		s, ok := StrV{bs}.concrete()
+		if !ok {
+			in.abort("unsupported", "bbolt bucket name with symbolic bytes")
+		}
+		return s
+	}
+	S["(*"+bb+".Tx).Bucket"] = func(in *Interp, fn *ssa.Function, a []Value) Value {
+		tx := txOf(in, a[0])
+		if tx.closed {
+			in.abort("panic", "bbolt transaction used after it ended")
+		}
+		return bucketHandle(in, tx, nameOf(in, a[1]))
+	}
+	S["(*"+bb+".Tx).CreateBucketIfNotExists"] = func(in *Interp, fn *ssa.Function, a []Value) Value {
+		tx := txOf(in, a[0])
+		if tx.closed {
+			return TupleV{[]Value{PtrV{}, boltErr(in, "ErrTxClosed")}}
+		}
+		if !tx.writable {
+			return TupleV{[]Value{PtrV{}, boltErr(in, "ErrTxNotWritable")}}
+		}
+		name := nameOf(in, a[1])
+		if _, ok := tx.work[name]; !ok {
+			tx.work[name] = &boltBucket{tx: tx}
+		}
+		return TupleV{[]Value{bucketHandle(in, tx, name), IfaceV{}}}
+	}
+	S["(*"+bb+".Tx).DeleteBucket"] = func(in *Interp, fn *ssa.Function, a []Value) Value {
+		tx := txOf(in, a[0])
+		if tx.closed {
+			return boltErr(in, "ErrTxClosed")
+		}
+		if !tx.writable {
+			return boltErr(in, "ErrTxNotWritable")
+		}
+		name := nameOf(in, a[1])
+		if _, ok := tx.work[name]; !ok {
+			return boltErr(in, "ErrBucketNotFound")
+		}
+		delete(tx.work, name)
+		delete(tx.handles, name)
+		return IfaceV{}
+	}
+	S["(*"+bb+".Bucket).Writable"] = func(in *Interp, fn *ssa.Function, a []Value) Value {
+		b := in.boltOf(a[0])
+		return Bool(b.tx == nil || b.tx.writable)
+	}
 	S["(*"+bb+".Bucket).Get"] = func(in *Interp, fn *ssa.Function, a []Value) Value {
 		b := in.boltOf(a[0])
 		k := sliceBytes(a[1].(SliceV))
@@ -897,11 +1163,17 @@ func (in *Interp) installBoltStubs() {
 		return SliceV{isNil: true}
 	}
 	S["(*"+bb+".Bucket).Put"] = func(in *Interp, fn *ssa.Function, a []Value) Value {
+		if b := in.boltOf(a[0]); b.tx != nil && !b.tx.writable {
+			return in.newErrorString("bbolt: tx not writable")
+		}
 		in.boltPut(in.boltOf(a[0]), sliceBytes(a[1].(SliceV)), a[2])
 		return IfaceV{}
 	}
 	S["(*"+bb+".Bucket).Delete"] = func(in *Interp, fn *ssa.Function, a []Value) Value {
 		b := in.boltOf(a[0])
+		if b.tx != nil && !b.tx.writable {
+			return in.newErrorString("bbolt: tx not writable")
+		}
 		k := sliceBytes(a[1].(SliceV))
 		for i := range b.keys {
 			if in.branch(Eq(cmpBytesTerm(k, b.keys[i]), BVi(64, 0))) {
